@@ -375,7 +375,14 @@ func judge(c *Case) *core.Verdict {
 			}
 		}
 	}
-	if c.Prop == "C06" {
+	// what of a node the property at hand speaks about (C12: who placed it and whether it is read-only)
+	same := func(a, b *Observed) bool {
+		if c.Prop == "C12" {
+			return a.Ro == b.Ro && a.Ns == b.Ns && a.Imod == b.Imod && a.Kind == b.Kind
+		}
+		return fmt.Sprintf("%+v|%s", a.Fact, a.Imod) == fmt.Sprintf("%+v|%s", b.Fact, b.Imod)
+	}
+	if (c.Prop == "C06" || c.Prop == "C12") && len(errs) == 0 {
 		// later uses: a second run over the same set instantiates every grouping again, with the same result
 		if errs2 := ms.Process(); len(errs2) > 0 {
 			return fail("second-run-differs", "a second Process of the same set reports %v", errs2)
@@ -384,7 +391,7 @@ func judge(c *Case) *core.Verdict {
 			if m := ms.Modules[n]; m != nil {
 				o2 := Flatten(yang.ToEntry(m))
 				for p, a := range obs[n] {
-					if b, ok := o2[p]; !ok || fmt.Sprintf("%+v|%s", a.Fact, a.Imod) != fmt.Sprintf("%+v|%s", b.Fact, b.Imod) {
+					if b, ok := o2[p]; !ok || !same(a, b) {
 						return fail("second-run-differs", "module %s path %s: first run %+v, second run %+v (present: %v)", n, p, a.Fact, func() any {
 							if ok {
 								return b.Fact
@@ -417,7 +424,7 @@ func judge(c *Case) *core.Verdict {
 						if !ok {
 							return fail("option-changes-outcome", "module %s path %s exists by default and is missing with ParseOptions.StoreUses", n, p)
 						}
-						if fmt.Sprintf("%+v|%s", a.Fact, a.Imod) != fmt.Sprintf("%+v|%s", b.Fact, b.Imod) {
+						if !same(a, b) {
 							return fail("option-changes-outcome", "module %s path %s: by default %+v, with ParseOptions.StoreUses %+v", n, p, a.Fact, b.Fact)
 						}
 					}
@@ -655,7 +662,7 @@ func init() {
 		r.Rule = "A: every program of the augment space (base module with container, list, choice/case with a shorthand member, uses copies, rpc with and without written input/output, notification; augmenting modules b and c with one augment each, targets drawn from base paths, paths another augment creates (chains), an absent path and a leaf, payloads leaf / container with config false / uses of the augmenter's grouping / two siblings / a name that collides), explored by TLC through every order of the augment loop's work list; every distinct outcome replayed: Process error presence, every path, kind and Namespace() compared. Non-trivial = every case (each has two augments)."
 		r.Exhaustive = true
 		r.Assumptions = []string{"implicit-case namespace, a wrong prefix on a non-first step and uses-augment are outside the claim", "the real map iteration order is whatever the Go runtime picks in the run (orders are exhaustive in the model only)"}
-		cfgs := tierCfgs(r, []string{"aug_quick", "aug_late", "aug_pair", "aug_sub_quick", "split"}, []string{"aug_sub", "aug_two"})
+		cfgs := tierCfgs(r, []string{"aug_quick", "aug_late", "aug_pair", "aug_sub_quick", "split", "aug_dev"}, []string{"aug_sub", "aug_two"})
 		designRun(r, "C07", cfgs, nil)
 		directionB(r, "C07", false)
 		RegistryReg(r) // several revisions of the augmented module: the augment lands in the tree of the one the import denotes
@@ -700,7 +707,7 @@ func init() {
 		r.Exhaustive = true
 		r.Assumptions = []string{"error texts are not compared, only presence", "bounded program spaces"}
 		col := core.NewCollector()
-		designRun(r, "C04", tierCfgs(r, []string{"aug_quick", "aug_late", "uses_quick", "aug_pair", "aug_sub_quick", "cfg", "dev3"}, []string{"aug_sub", "aug_two", "uses", "split", "dev2"}), col)
+		designRun(r, "C04", tierCfgs(r, []string{"aug_quick", "aug_late", "uses_quick", "aug_pair", "aug_sub_quick", "cfg", "dev3", "aug_dev"}, []string{"aug_sub", "aug_two", "uses", "split", "dev2"}), col)
 		RegistryHeaps(r, col) // several revisions of one module in the set: every tree is swept, fixed and augmented
 		r.ValidateTrace("schema", col, core.TLCOpts{Module: "SchemaTrace", Cfg: "SchemaTrace.cfg", Timeout: 0, HeapGB: 8})
 		directionB(r, "C04", true)
@@ -711,7 +718,7 @@ func init() {
 		r.Rule = "A: the config space (config unset/true/false at three depths; the second and third level placed by plain nesting, uses, a shorthand choice member or case, or an augment from another module; the whole tree in the module or in a submodule; the same under rpc input, rpc output and notification without config statements) and the augment space; for every node of every clean outcome ReadOnly(), Namespace() and InstantiatingModule() are compared with the specification's reading of who wrote which statement. Non-trivial = every case."
 		r.Exhaustive = true
 		r.Assumptions = []string{"config statements inside rpc / action / notification are outside the claim", "the namespace of an implicit case itself is not compared"}
-		designRun(r, "C12", tierCfgs(r, []string{"cfg", "aug_quick", "aug_late", "uses_quick"}, []string{"aug_sub", "uses"}), nil)
+		designRun(r, "C12", tierCfgs(r, []string{"cfg", "aug_quick", "aug_late", "uses_quick", "aug_sub_quick"}, []string{"aug_sub", "uses"}), nil)
 		directionB(r, "C12", false)
 		SessionHistories(r, "C12", "dv", "tgt2")
 		RegistryReg(r) // several revisions of one module in the set: attribution still names the module whose text placed the node
